@@ -15,8 +15,17 @@ from . import c01
 PRE = {0, 2, 7, 9}
 
 
-def modulate(rng, frames, amps, lead, gaps, tail, peak):
+def modulate(rng, frames, amps, lead, gaps, tail, peak, flat=False):
     sig = []
+
+    class _Flat:
+        """constant noise: every low sample equals `peak` (the measured noise floor is then exactly `peak`)"""
+        @staticmethod
+        def randrange(a, b):
+            return b - 1
+
+    if flat:
+        rng = _Flat
 
     def noise(n):
         return [rng.randrange(0, peak + 1) for _ in range(n)]
@@ -73,8 +82,14 @@ def vectors(ctx):
             peak = rng.randrange(amin // 5 + 1, (amin * 316) // 1000)
             if peak >= 200:
                 cls = "ten_db_abs"      # noise reaches the absolute tolerance (0.2) of the preamble template
+        flat = False
+        if k % 8 == 5:
+            # the gate itself: constant noise whose level is the measured floor, weakest pulse just above 10 dB (x3.163 .. x3.3)
+            flat = True
+            peak = (amin * 1000) // rng.choice([3163, 3170, 3200, 3300])
+            cls = "flat_ten_db"
         lead = rng.randrange(0, 40)
-        sig = modulate(rng, frames, amps, lead, gaps, 420 + rng.randrange(0, 200), peak)
+        sig = modulate(rng, frames, amps, lead, gaps, 420 + rng.randrange(0, 200), peak, flat)
         V.append({"fn": "demod", "sig": sig, "sent": sent, "cls": cls, "stop": 1, "case": [k, n, cls, peak, amin]})
     return V
 
@@ -86,7 +101,8 @@ def case_of(e):
 def run(ctx):
     ctx.rule = ("buffers of 0-3 frames (DF4/5/11/17/20/21 valid, 15 % bad-parity DF17 decoys), lead 0-39 samples, gaps 1-3 frame "
                 "lengths, >= 420 trailing noise samples, amplitudes 300..1400 (x1000; equal or per-frame), uniform integer noise with "
-                "peak 0 .. 0.19 x weakest pulse ('quiet', 3/4 of the buffers) or 0.2 .. 0.316 x ('ten_db', 1/4); distinct = buffers")
+                "peak 0 .. 0.19 x weakest pulse ('quiet') or 0.2 .. 0.316 x ('ten_db', 1/4), or constant noise at weakest pulse / 3.163 .. 3.3 "
+                "('flat_ten_db', 1/8: the 10 dB gate itself); distinct = buffers")
     ctx.assumptions += ["'at least 10 dB above the noise floor' is read as: every noise sample at most amp/3.162 (the reading that asks "
                         "least of the code); samples are integers x1000 handed to the code as floats; buffers hold >= 200 samples and a "
                         "fully quiet 100-us window, as any real 100 ms buffer does"]
@@ -95,7 +111,7 @@ def run(ctx):
     cfg = open(os.path.join(tlc.SPEC_DIR, "MC_C19.cfg")).read().replace("MaxFrames = 1", "MaxFrames = %d" % ctx.pick(1, 2)).replace("MaxOff = 1", "MaxOff = %d" % ctx.pick(1, 3))
     ctx.model_check("MC_C19", cfg_text=cfg, what="C19 modulate/demodulate identity", timeout=6000)
     ev, rej = ctx.check_events(vectors(ctx), case_of=case_of, shards=16)
-    ctx.extra["buffers_by_noise_class"] = {c: sum(1 for e in ev if e["cls"] == c) for c in ("quiet", "ten_db", "ten_db_abs")}
+    ctx.extra["buffers_by_noise_class"] = {c: sum(1 for e in ev if e["cls"] == c) for c in ("quiet", "ten_db", "ten_db_abs", "flat_ten_db")}
     ctx.extra["frames_modulated"] = sum(len(e["sent"]) for e in ev)
 
 
